@@ -639,11 +639,13 @@ HXPread(accrec_t *access_rec, int32 length, void *data)
     if (length < 0)
         HGOTO_ERROR(DFE_RANGE, FAIL);
 
+    /* at or after the end of the element there is nothing to read */
+    if (access_rec->posn >= info->length)
+        HGOTO_DONE(0);
+
     /* adjust length if it falls off the end of the element */
-    if ((length == 0) || (access_rec->posn + length > info->length))
+    if ((length == 0) || (length > info->length - access_rec->posn))
         length = info->length - access_rec->posn;
-    else if (length < 0)
-        HGOTO_ERROR(DFE_RANGE, FAIL);
 
     /* if the file is open but external directory is changed (by HXsetdir),
        then close the file first before making the new file path */
